@@ -93,10 +93,17 @@ type c12AddrState struct {
 	// runClaims: 0 = no attempt of the run carried a forwarding header, 1 =
 	// some did, 2 = some claimed an address inside the trusted proxies.
 	runClaims int
+	// evalsB is evals plus the requests with bad Basic credentials as
+	// failures (the lenient reading of "failed logins").
+	evalsB []c12Eval
+	// basicInBlock: a Basic-auth request was sent inside the current block.
+	basicInBlock, basicRightInBlock bool
 }
 
 func (a *c12AddrState) reset() {
 	a.evals = nil
+	a.evalsB = nil
+	a.basicInBlock, a.basicRightInBlock = false, false
 	a.mode = c12Clean
 	a.run = nil
 	a.runKinds = map[string]bool{}
@@ -111,8 +118,12 @@ func (a *c12AddrState) reset() {
 // last max evaluated attempts of the address are all failures, lie within a
 // minute and the last of them is at most block seconds old.
 func (a *c12AddrState) justify429(t int64, max int, block int64) (ok bool, why string) {
+	return c12Justify(a.evals, t, max, block)
+}
+
+func c12Justify(evals []c12Eval, t int64, max int, block int64) (ok bool, why string) {
 	nf := 0
-	for _, e := range a.evals {
+	for _, e := range evals {
 		if !e.ok {
 			nf++
 		}
@@ -120,10 +131,10 @@ func (a *c12AddrState) justify429(t int64, max int, block int64) (ok bool, why s
 	if nf == 0 {
 		return false, "no-failure-from-address"
 	}
-	if len(a.evals) < max || nf < max {
+	if len(evals) < max || nf < max {
 		return false, "fewer-than-max-failures"
 	}
-	last := a.evals[len(a.evals)-max:]
+	last := evals[len(evals)-max:]
 	for _, e := range last {
 		if e.ok {
 			return false, "success-since"
@@ -156,6 +167,11 @@ type c12Tok struct {
 	faulted, faultedRestart bool
 	// logoutFault is the storage fault that was active at its logout.
 	logoutFault string
+	// logoutMulti: its logout request carried several session cookies.
+	logoutMulti bool
+	// maybeOut: it was a valid token of an accepted logout request that was
+	// not necessarily the one ended.
+	maybeOut bool
 }
 
 type c12User struct {
@@ -355,36 +371,49 @@ func (h *c12Hist) doLogin(raddr, name, pw string, hdrs []c12Hdr) (status int, co
 	return res.StatusCode, cookie, hasCookie, res.Header.Get("Retry-After"), nil
 }
 
-// doAuth sends a request through an optionalAuth-wrapped probe handler and
-// reports whether the wrapped handler ran.
-func (h *c12Hist) doAuth(raddr, path string, withCookie bool, val string) (ran bool, status int, pan any) {
+// doReq sends a GET through the real authentication middleware: to an
+// optionalAuth-wrapped probe handler, or (logout) to optionalAuth(handleLogout),
+// which is how the product routes /control/logout.  cookies are the
+// agh_session values in header order (nil = no Cookie header); basic, if not
+// nil, is {user, password} for an Authorization: Basic header.  ran reports
+// whether the wrapped handler ran, i.e. whether the request was authenticated.
+func (h *c12Hist) doReq(raddr, path string, cookies, basic []string, logout bool) (ran bool, status int, cleared bool, pan any) {
 	r := httptest.NewRequest(http.MethodGet, path, nil)
 	r.RemoteAddr = raddr
-	if withCookie {
-		r.Header.Set("Cookie", sessionCookieName+"="+val)
+	if cookies != nil {
+		var parts []string
+		for _, c := range cookies {
+			parts = append(parts, sessionCookieName+"="+c)
+		}
+		r.Header.Set("Cookie", strings.Join(parts, "; "))
+	}
+	if basic != nil {
+		r.SetBasicAuth(basic[0], basic[1])
 	}
 	w := httptest.NewRecorder()
-	probe := optionalAuth(func(w http.ResponseWriter, _ *http.Request) {
+	inner := func(w http.ResponseWriter, _ *http.Request) {
 		ran = true
 		w.WriteHeader(http.StatusNoContent)
-	})
+	}
+	if logout {
+		inner = func(w http.ResponseWriter, r *http.Request) {
+			ran = true
+			handleLogout(w, r)
+		}
+	}
 	func() {
 		defer func() { pan = recover() }()
-		probe(w, r)
+		optionalAuth(inner)(w, r)
 	}()
-	return ran, w.Code, pan
-}
-
-func (h *c12Hist) doLogout(raddr string, val string) (status int, pan any) {
-	r := httptest.NewRequest(http.MethodGet, "/control/logout", nil)
-	r.RemoteAddr = raddr
-	r.Header.Set("Cookie", sessionCookieName+"="+val)
-	w := httptest.NewRecorder()
-	func() {
-		defer func() { pan = recover() }()
-		handleLogout(w, r)
-	}()
-	return w.Code, pan
+	if pan != nil {
+		return ran, 0, false, pan
+	}
+	for _, c := range w.Result().Cookies() {
+		if c.Name == sessionCookieName && c.Value == "" {
+			cleared = true
+		}
+	}
+	return ran, w.Code, cleared, nil
 }
 
 func c12RunKinds(m map[string]bool) string {
@@ -521,6 +550,11 @@ func (h *c12Hist) login(ai int, kind string) {
 			claimKey = ":with-headers-claiming-trusted-proxy-address"
 		}
 	}
+	if a.basicRightInBlock {
+		claimKey += ":after-basic-auth-with-right-credentials-inside-block"
+	} else if a.basicInBlock {
+		claimKey += ":after-basic-auth-request-inside-block"
+	}
 	if pan != nil {
 		st.Obs = fmt.Sprintf("panic: %v", pan)
 		h.violate("panic:login", fmt.Sprintf("handleLogin panicked: %v", pan), nil)
@@ -577,6 +611,12 @@ func (h *c12Hist) login(ai int, kind string) {
 			if claims == 2 {
 				h.rep.Event("block_enforced_on_attempt_claiming_trusted_address")
 			}
+			if a.basicInBlock {
+				h.rep.Event("block_enforced_after_basic_auth_request_inside_block")
+			}
+			if a.basicRightInBlock {
+				h.rep.Event("block_enforced_after_right_basic_credentials_inside_block")
+			}
 			if h.cfg.Tracked > 0 {
 				h.rep.Event("block_enforced_checks_with_many_tracked_addresses")
 				if h.cfg.Tracked >= 512 && ai == 0 {
@@ -585,6 +625,13 @@ func (h *c12Hist) login(ai int, kind string) {
 			}
 		}
 		if !just {
+			if jb, _ := c12Justify(a.evalsB, t, max, block); jb {
+				// Permitted only if requests with bad Basic credentials are
+				// counted as failed logins.
+				h.rep.Unspec("blocked_when_failed_basic_auth_counts_as_failed_login")
+				a.has429, a.last429 = true, t
+				return
+			}
 			if a.has429 && t-a.last429 <= block {
 				h.rep.Unspec("blocked_attempt_extends_block")
 				a.last429 = t
@@ -621,6 +668,7 @@ func (h *c12Hist) login(ai int, kind string) {
 			h.rep.Unspec("evaluated_where_a_sliding_window_would_block")
 		}
 		a.evals = append(a.evals, c12Eval{t: t})
+		a.evalsB = append(a.evalsB, c12Eval{t: t})
 		if a.failsAfterSuccess >= 0 {
 			a.failsAfterSuccess++
 			if a.failsAfterSuccess <= max-1 {
@@ -633,6 +681,7 @@ func (h *c12Hist) login(ai int, kind string) {
 			a.run = []int64{t}
 			a.runKinds = map[string]bool{kind: true}
 			a.runClaims = claims
+			a.basicInBlock, a.basicRightInBlock = false, false
 		case a.mode == c12Run && len(a.run) < max && t-a.run[0] < c12Window:
 			a.run = append(a.run, t)
 			a.runKinds[kind] = true
@@ -686,6 +735,7 @@ func (h *c12Hist) login(ai int, kind string) {
 			}
 			a.reset()
 			a.evals = append(a.evals, c12Eval{t: t, ok: true})
+			a.evalsB = append(a.evalsB, c12Eval{t: t, ok: true})
 			a.failsAfterSuccess = 0
 		}
 		h.toks = append(h.toks, &c12Tok{val: cookie, user: name, created: t, lastOK: t, faulted: h.fault != ""})
@@ -774,76 +824,212 @@ func (h *c12Hist) pickTok() int {
 	return h.rng.Intn(n)
 }
 
-func (h *c12Hist) authReq() {
-	raddr := h.remoteAddr(h.addrs[h.rng.Intn(len(h.addrs))].ip)
-	path := "/control/status"
-	if h.rng.Intn(5) == 0 {
-		path = "/"
-	}
-	t := h.now()
+// tokState is the oracle's reading of one issued token at instant t:
+// "accept", "either" (with the unspecified zone), "reject:logged-out" or
+// "reject:expired".
+func (h *c12Hist) tokState(k *c12Tok, t int64) (state, zone string) {
 	ttl := h.cfg.TTLS
-	if h.force < 0 && (len(h.toks) == 0 || h.rng.Intn(5) == 0) {
-		// unknown / garbled / absent token
-		var val, kind string
-		with := true
-		if h.rng.Intn(8) == 0 {
-			kind, with = "no-cookie", false
-		} else {
-			val, kind = h.garble(c12GarbleAll)
-		}
-		h.canon = append(h.canon, "A:"+strings.SplitN(kind, " of ", 2)[0])
-		st := h.step("request", raddr, path+" cookie="+kind+" "+val)
-		st.Exp = "reject (not an issued token)"
-		ran, code, pan := h.doAuth(raddr, path, with, val)
-		if pan != nil {
-			st.Obs = fmt.Sprintf("panic: %v", pan)
-			h.violate("panic:request", fmt.Sprintf("optionalAuth panicked: %v", pan), nil)
-			return
-		}
-		st.Obs = fmt.Sprintf("handler_ran=%v status=%d", ran, code)
-		h.rep.Event("unknown_token_checks")
-		if ran {
-			h.violate("session:unissued-token-accepted:"+strings.SplitN(kind, " of ", 2)[0],
-				"a request with a cookie that is not an issued token ("+kind+") was authenticated", nil)
-		}
-		return
-	}
-	ti := h.force
-	if ti < 0 {
-		ti = h.pickTok()
-	}
-	k := h.toks[ti]
-	h.canon = append(h.canon, fmt.Sprintf("A:tok%d", ti))
-	st := h.step("request", raddr, fmt.Sprintf("%s cookie=tok#%d", path, ti))
-	exp := "either"
 	switch {
 	case k.faultedRestart && t <= k.lastOK+ttl:
 		// What a restart restores from a db that could not be written is
 		// not specified.
-		h.rep.Unspec("token_after_restart_from_db_that_could_not_be_written")
+		return "either", "token_after_restart_from_db_that_could_not_be_written"
 	case k.loggedOut:
-		exp = "reject:logged-out"
+		return "reject:logged-out", ""
+	case k.maybeOut && t <= k.lastOK+ttl:
+		return "either", "other_valid_token_of_an_accepted_logout_request"
 	case t < k.created+ttl:
-		exp = "accept"
+		return "accept", ""
 	case t > k.lastOK+ttl:
-		exp = "reject:expired"
+		return "reject:expired", ""
 	case t == k.lastOK+ttl:
-		exp = "either"
-		h.rep.Unspec("request_exactly_at_expiry")
-	default:
-		h.rep.Unspec("between_initial_expiry_and_last_use_plus_ttl")
+		return "either", "request_exactly_at_expiry"
 	}
-	st.Exp = fmt.Sprintf("%s (created=%d last_accepted=%d ttl=%d)", exp, k.created, k.lastOK, ttl)
-	ran, code, pan := h.doAuth(raddr, path, true, k.val)
+	return "either", "between_initial_expiry_and_last_use_plus_ttl"
+}
+
+type c12Cookie struct {
+	tok  int // index of the issued token, -1 for a value that was never issued
+	val  string
+	desc string
+	kind string // kind of never-issued value
+}
+
+func (h *c12Hist) authReq() { h.cookieReq(false) }
+func (h *c12Hist) logout()  { h.cookieReq(true) }
+
+// cookieReq performs one request that carries agh_session cookies through the
+// real middleware: to the probe handler, or to /control/logout.  The product
+// (http.Request.Cookie) documents the first cookie of that name as the
+// session; the oracle demands acceptance when the first cookie is a certainly
+// valid token and refusal when no cookie is a possibly valid token; a valid
+// token behind an invalid first cookie is an unspecified zone.  After an
+// accepted logout the token that authenticated it must be dead.
+func (h *c12Hist) cookieReq(logout bool) {
+	raddr := h.remoteAddr(h.addrs[h.rng.Intn(len(h.addrs))].ip)
+	path := "/control/status"
+	if logout {
+		path = "/control/logout"
+	} else if h.rng.Intn(5) == 0 {
+		path = "/"
+	}
+	t := h.now()
+	ttl := h.cfg.TTLS
+	op := "request"
+	if logout {
+		op = "logout"
+	}
+
+	mk := func(ti int) c12Cookie {
+		return c12Cookie{tok: ti, val: h.toks[ti].val, desc: fmt.Sprintf("tok#%d", ti)}
+	}
+	junk := func(kinds []string) c12Cookie {
+		val, kind := h.garble(kinds)
+		return c12Cookie{tok: -1, val: val, desc: fmt.Sprintf("%s %q", kind, val), kind: strings.SplitN(kind, " of ", 2)[0]}
+	}
+	empty := c12Cookie{tok: -1, val: "", desc: `empty ""`, kind: "empty"}
+	junkKinds := c12GarbleAll
+	if logout {
+		junkKinds = []string{"flip-last-digit", "truncated", "extended-hex", "extended-odd", "extended-nonhex", "random-hex", "short"}
+	}
+	var cks []c12Cookie
+	noCookie := false
+	unissuedOdds := 5
+	if logout {
+		unissuedOdds = 6
+	}
+	switch {
+	case h.force >= 0:
+		cks = []c12Cookie{mk(h.force)}
+	case len(h.toks) == 0 || h.rng.Intn(unissuedOdds) == 0:
+		if !logout && h.rng.Intn(8) == 0 {
+			noCookie = true
+		} else {
+			cks = []c12Cookie{junk(junkKinds)}
+		}
+	case h.rng.Intn(4) == 0:
+		// Several agh_session cookies in one request.
+		tk := mk(h.pickTok())
+		switch h.rng.Intn(8) {
+		case 0:
+			cks = []c12Cookie{tk, tk}
+		case 1:
+			cks = []c12Cookie{tk, junk(junkKinds)}
+		case 2:
+			cks = []c12Cookie{junk(junkKinds), tk}
+		case 3:
+			cks = []c12Cookie{empty, tk}
+		case 4:
+			cks = []c12Cookie{tk, empty}
+		case 5:
+			cks = []c12Cookie{mk(h.pickTok()), tk}
+		case 6:
+			cks = []c12Cookie{mk(h.rng.Intn(len(h.toks))), tk}
+		default:
+			cks = []c12Cookie{junk(junkKinds), mk(h.rng.Intn(len(h.toks))), tk}
+		}
+	default:
+		cks = []c12Cookie{mk(h.pickTok())}
+	}
+	multi := len(cks) > 1
+
+	var descs, canon, vals []string
+	states := make([]string, len(cks))
+	zones := make([]string, len(cks))
+	for i, c := range cks {
+		descs = append(descs, c.desc)
+		if c.tok >= 0 {
+			canon = append(canon, fmt.Sprintf("tok%d", c.tok))
+			states[i], zones[i] = h.tokState(h.toks[c.tok], t)
+		} else {
+			canon = append(canon, c.kind)
+			states[i] = "reject:unissued"
+		}
+		vals = append(vals, c.val)
+	}
+	if noCookie {
+		descs, canon, vals = []string{"no-cookie"}, []string{"no-cookie"}, nil
+	}
+	h.canon = append(h.canon, fmt.Sprintf("%s:%s", map[bool]string{false: "A", true: "O"}[logout], strings.Join(canon, "+")))
+	st := h.step(op, raddr, path+" cookies=["+strings.Join(descs, "; ")+"]")
+
+	possible := func(i int) bool { return states[i] == "accept" || states[i] == "either" }
+	exp, zone := "reject", ""
+	blame := -1 // cookie index the refusal is attributed to
+	switch {
+	case len(cks) == 0:
+	case states[0] == "accept":
+		exp = "accept"
+	case states[0] == "either":
+		exp, zone = "either", zones[0]
+	default:
+		for i := 1; i < len(cks); i++ {
+			if possible(i) {
+				exp, zone = "either", "valid_token_behind_an_invalid_first_session_cookie"
+			}
+		}
+		if exp == "reject" {
+			for _, want := range []string{"reject:logged-out", "reject:expired"} {
+				for i := range cks {
+					if blame < 0 && states[i] == want {
+						blame = i
+					}
+				}
+			}
+		}
+	}
+	if zone != "" {
+		h.rep.Unspec(zone)
+	}
+	reason := "not an issued token"
+	var k *c12Tok
+	ti := -1
+	switch {
+	case exp == "accept" || exp == "either" && cks[0].tok >= 0:
+		ti = cks[0].tok
+	case blame >= 0:
+		ti = cks[blame].tok
+		reason = strings.TrimPrefix(states[blame], "reject:")
+	}
+	if ti >= 0 {
+		k = h.toks[ti]
+		st.Exp = fmt.Sprintf("%s (tok#%d created=%d last_accepted=%d ttl=%d)", exp, ti, k.created, k.lastOK, ttl)
+		if exp == "reject" {
+			st.Exp = fmt.Sprintf("reject:%s (tok#%d created=%d last_accepted=%d ttl=%d)", reason, ti, k.created, k.lastOK, ttl)
+		}
+	} else {
+		st.Exp = exp + " (" + reason + ")"
+	}
+	if zone != "" {
+		st.Exp += " [" + zone + "]"
+	}
+
+	ran, code, cleared, pan := h.doReq(raddr, path, vals, nil, logout)
 	if pan != nil {
 		st.Obs = fmt.Sprintf("panic: %v", pan)
-		h.violate("panic:request", fmt.Sprintf("optionalAuth panicked: %v", pan), nil)
+		h.violate("panic:"+op, fmt.Sprintf("the %s request panicked: %v", op, pan), nil)
 		return
 	}
 	st.Obs = fmt.Sprintf("handler_ran=%v status=%d", ran, code)
+	if logout {
+		st.Obs = fmt.Sprintf("logout_handler_ran=%v status=%d session_cookie_cleared=%v", ran, code, cleared)
+	}
+	if multi {
+		h.rep.Event("requests_with_several_session_cookies")
+		if logout {
+			h.rep.Event("logout_requests_with_several_session_cookies")
+		}
+	}
+	shape := ""
+	if multi {
+		shape += ":several-session-cookies"
+	}
+	if logout {
+		shape += ":logout-request"
+	}
 	sfx := ""
-	switch exp {
-	case "accept":
+	switch {
+	case exp == "accept":
 		h.rep.Event("session_must_accept_checks")
 		if k.restartsSinceCreate > 0 {
 			h.rep.Event("session_must_accept_checks_after_restart")
@@ -852,16 +1038,19 @@ func (h *c12Hist) authReq() {
 		if t == k.created+ttl-1 {
 			h.rep.Event("session_accept_checks_1s_before_expiry")
 		}
+		if multi {
+			h.rep.Event("session_must_accept_checks_with_several_cookies")
+		}
 		if !ran {
 			if k.extLogout {
 				sfx += ":after-logout-with-token-plus-suffix"
 			}
-			h.violate("session:rejected-while-valid"+sfx,
+			h.violate("session:rejected-while-valid"+sfx+shape,
 				fmt.Sprintf("tok#%d was rejected at t=%d although created at %d with ttl %d and never logged out", ti, t, k.created, ttl),
 				map[string]any{"token": ti})
 			return
 		}
-	case "reject:logged-out":
+	case exp == "reject" && reason == "logged-out":
 		h.sawSessReject = true
 		h.rep.Event("session_reject_checks_after_logout")
 		if k.restartsSinceLogout > 0 {
@@ -872,12 +1061,16 @@ func (h *c12Hist) authReq() {
 			h.rep.Event("session_reject_checks_after_logout_during_storage_fault")
 			sfx += ":storage-fault-" + k.logoutFault
 		}
+		if k.logoutMulti {
+			h.rep.Event("session_reject_checks_after_logout_with_several_cookies")
+			sfx += ":logout-had-several-session-cookies"
+		}
 		if ran {
-			h.violate("session:accepted-after-logout"+sfx,
+			h.violate("session:accepted-after-logout"+sfx+shape,
 				fmt.Sprintf("tok#%d authenticated a request after its logout", ti), map[string]any{"token": ti})
 			return
 		}
-	case "reject:expired":
+	case exp == "reject" && reason == "expired":
 		h.sawSessReject = true
 		h.rep.Event("session_reject_checks_after_expiry")
 		if k.restartsSinceCreate > 0 {
@@ -888,72 +1081,169 @@ func (h *c12Hist) authReq() {
 			h.rep.Event("session_reject_checks_1s_after_expiry")
 		}
 		if ran {
-			h.violate("session:accepted-after-expiry"+sfx,
+			h.violate("session:accepted-after-expiry"+sfx+shape,
 				fmt.Sprintf("tok#%d authenticated a request at t=%d; last accepted at %d, ttl %d", ti, t, k.lastOK, ttl),
 				map[string]any{"token": ti})
 			return
 		}
-	}
-	if exp == "either" && !k.faultedRestart {
+	case exp == "reject":
+		h.rep.Event("unknown_token_checks")
+		kind := "no-cookie"
+		if len(cks) > 0 {
+			kind = cks[0].kind
+		}
 		if ran {
-			h.rep.Event("accepted_past_initial_expiry(refreshed)")
-		} else {
-			h.rep.Event("rejected_past_initial_expiry")
+			h.violate("session:unissued-token-accepted:"+kind+shape,
+				"a request whose session cookies are not issued tokens ("+strings.Join(descs, "; ")+") was authenticated", nil)
+			return
+		}
+	default:
+		if zone == "between_initial_expiry_and_last_use_plus_ttl" {
+			if ran {
+				h.rep.Event("accepted_past_initial_expiry(refreshed)")
+			} else {
+				h.rep.Event("rejected_past_initial_expiry")
+			}
+		}
+		if zone == "valid_token_behind_an_invalid_first_session_cookie" {
+			if ran {
+				h.rep.Event("authenticated_by_a_later_session_cookie")
+			} else {
+				h.rep.Event("refused_because_first_session_cookie_invalid")
+			}
 		}
 	}
-	if ran {
-		k.lastOK = t
+	if logout {
+		for _, c := range cks {
+			for _, o := range h.toks {
+				if c.val != o.val && strings.HasPrefix(c.val, o.val) {
+					o.extLogout = true
+					h.rep.Event("logouts_with_issued_token_plus_suffix")
+				}
+			}
+		}
+	}
+	if !ran {
+		if logout {
+			h.rep.Event("logout_requests_refused_by_middleware")
+		}
+		return
+	}
+	// The request was authenticated: every possibly valid token it carried
+	// may have been used (and refreshed).
+	var valid []int
+	for i, c := range cks {
+		if c.tok >= 0 && possible(i) {
+			h.toks[c.tok].lastOK = t
+			dup := false
+			for _, v := range valid {
+				dup = dup || v == c.tok
+			}
+			if !dup {
+				valid = append(valid, c.tok)
+			}
+		}
+	}
+	if !logout {
+		return
+	}
+
+	// An accepted logout.  The token that authenticated it is dead from now
+	// on: the only possibly valid one, or the first cookie if that is a
+	// certainly valid token.  Other valid tokens of the request may or may
+	// not have been ended.
+	h.rep.Event("logouts_accepted")
+	hard := -1
+	if len(valid) == 1 {
+		hard = valid[0]
+	} else if len(cks) > 0 && cks[0].tok >= 0 && states[0] == "accept" {
+		hard = cks[0].tok
+	}
+	for _, v := range valid {
+		o := h.toks[v]
+		if h.fault != "" {
+			o.faulted = true
+		}
+		if v != hard {
+			if !o.loggedOut {
+				o.maybeOut = true
+				h.rep.Unspec("other_valid_token_of_an_accepted_logout_request")
+			}
+			continue
+		}
+		st.Exp += fmt.Sprintf("; tok#%d is dead from now on", v)
+		if h.fault != "" {
+			st.Exp += " although sessions.db cannot be written (" + h.fault + ")"
+		}
+		if !o.loggedOut {
+			o.loggedOut = true
+			o.restartsSinceLogout = 0
+			o.logoutFault = h.fault
+			o.logoutMulti = multi
+			h.rep.Event("logouts")
+			if h.fault != "" {
+				h.rep.Event("logouts_during_storage_fault")
+			}
+			if multi {
+				h.rep.Event("logouts_with_several_session_cookies")
+			}
+		}
+	}
+	if multi && hard >= 0 && h.force < 0 && !h.dead && h.rng.Intn(2) == 0 {
+		h.force = hard
+		h.cookieReq(false)
+		h.force = -1
 	}
 }
 
-func (h *c12Hist) logout() {
-	raddr := h.remoteAddr(h.addrs[h.rng.Intn(len(h.addrs))].ip)
-	if h.force < 0 && (len(h.toks) == 0 || h.rng.Intn(6) == 0) {
-		val, kind := h.garble([]string{"flip-last-digit", "truncated", "extended-hex", "extended-odd", "extended-nonhex", "random-hex", "short"})
-		h.canon = append(h.canon, "O:"+strings.SplitN(kind, " of ", 2)[0])
-		st := h.step("logout", raddr, "cookie="+kind+" "+val)
-		code, pan := h.doLogout(raddr, val)
-		if pan != nil {
-			st.Obs = fmt.Sprintf("panic: %v", pan)
-			h.violate("panic:logout", fmt.Sprintf("handleLogout panicked: %v", pan), nil)
-			return
+// basicReq sends a cookie-less request with Authorization: Basic from a login
+// address.  The property speaks of logins only: such requests neither clear a
+// block nor (asserted leniently, see the 429 rule) count as failed logins.
+func (h *c12Hist) basicReq(ai int) {
+	a := h.addrs[ai]
+	u := h.users[h.rng.Intn(len(h.users))]
+	name, pw := u.name, u.pw
+	right := h.rng.Intn(2) == 0
+	kind := "right"
+	if !right {
+		if h.rng.Intn(3) == 0 {
+			name, kind = "nobody", "unknown-user"
+		} else {
+			pw, kind = pw+"x", "wrong-password"
 		}
-		st.Obs = fmt.Sprintf("%d", code)
-		st.Exp = "ends no session (not an issued token)"
-		h.rep.Event("logouts_with_unissued_token")
-		for _, k := range h.toks {
-			if val != k.val && strings.HasPrefix(val, k.val) {
-				k.extLogout = true
-				h.rep.Event("logouts_with_issued_token_plus_suffix")
-			}
-		}
-		return
 	}
-	ti := h.force
-	if ti < 0 {
-		ti = h.pickTok()
-	}
-	k := h.toks[ti]
-	h.canon = append(h.canon, fmt.Sprintf("O:tok%d", ti))
-	st := h.step("logout", raddr, fmt.Sprintf("cookie=tok#%d", ti))
-	code, pan := h.doLogout(raddr, k.val)
+	raddr := h.remoteAddr(a.ip)
+	t := h.now()
+	max, block := h.cfg.Max, h.cfg.BlockS
+	blocked := !a.tainted && a.mode == c12Run && len(a.run) >= max && t < a.run[len(a.run)-1]+block
+	h.canon = append(h.canon, fmt.Sprintf("B%d:%s", ai, kind))
+	st := h.step("basic-auth request", raddr, "/control/status no cookie, Authorization: Basic "+kind+" user="+name)
+	ran, code, _, pan := h.doReq(raddr, "/control/status", nil, []string{name, pw}, false)
 	if pan != nil {
 		st.Obs = fmt.Sprintf("panic: %v", pan)
-		h.violate("panic:logout", fmt.Sprintf("handleLogout panicked: %v", pan), nil)
+		h.violate("panic:basic-auth-request", fmt.Sprintf("optionalAuth panicked: %v", pan), nil)
 		return
 	}
-	st.Obs = fmt.Sprintf("%d", code)
-	if h.fault != "" {
-		st.Exp = "token refused from now on in this process although sessions.db cannot be written (" + h.fault + ")"
-		k.faulted = true
+	st.Obs = fmt.Sprintf("handler_ran=%v status=%d", ran, code)
+	st.Exp = "no effect on the login throttle of " + a.ip
+	h.rep.Event("basic_auth_requests_" + map[bool]string{true: "right", false: "wrong"}[right] + "_credentials")
+	if !right {
+		st.Exp += "; not authenticated"
+		if ran {
+			h.violate("basic-auth:bad-credentials-accepted:"+kind, "a request with bad Basic credentials was authenticated", nil)
+			return
+		}
+		a.evalsB = append(a.evalsB, c12Eval{t: t})
 	}
-	if !k.loggedOut {
-		k.loggedOut = true
-		k.restartsSinceLogout = 0
-		k.logoutFault = h.fault
-		h.rep.Event("logouts")
-		if h.fault != "" {
-			h.rep.Event("logouts_during_storage_fault")
+	if blocked {
+		a.basicInBlock = true
+		h.rep.Event("basic_auth_requests_from_blocked_address")
+		if right {
+			a.basicRightInBlock = true
+			h.rep.Event("basic_auth_requests_with_right_credentials_from_blocked_address")
+		}
+		if h.rng.Intn(2) == 0 {
+			h.login(ai, c12Pick(h.rng, "right", "wrong-password"))
 		}
 	}
 }
@@ -1165,12 +1455,14 @@ func (h *c12Hist) run() {
 			h.login(h.cur, c12WrongKinds[h.rng.Intn(len(c12WrongKinds))])
 		case r < 48:
 			h.login(h.cur, "right")
-		case r < 68:
+		case r < 65:
 			h.authReq()
-		case r < 74:
+		case r < 71:
 			h.logout()
-		case r < 95:
+		case r < 89:
 			h.advance()
+		case r < 95:
+			h.basicReq(h.cur)
 		case r < 98:
 			h.restart()
 		default:
@@ -1387,22 +1679,26 @@ func TestVerifC12(t *testing.T) {
 
 	// The run is conclusive only if the interesting events were observed.
 	need := map[string]int{
-		"block_enforced_checks":                                    verifkit.Pick(100, 2000),
-		"block_enforced_on_right_password":                         verifkit.Pick(20, 400),
-		"certain_runs_reaching_limit":                              verifkit.Pick(100, 2000),
-		"success_clearing_a_count":                                 verifkit.Pick(50, 1000),
-		"session_must_accept_checks":                               verifkit.Pick(200, 4000),
-		"session_must_accept_checks_after_restart":                 verifkit.Pick(20, 400),
-		"session_reject_checks_after_expiry":                       verifkit.Pick(50, 1000),
-		"session_reject_checks_after_logout":                       verifkit.Pick(50, 1000),
-		"session_reject_checks_after_logout_and_restart":           verifkit.Pick(5, 100),
-		"unknown_token_checks":                                     verifkit.Pick(100, 2000),
-		"restarts":                                                 verifkit.Pick(100, 2000),
-		"session_reject_checks_after_logout_during_storage_fault":  verifkit.Pick(50, 1000),
-		"block_enforced_checks_on_new_address_with_512+_tracked":   verifkit.Pick(10, 50),
-		"logins_claiming_trusted_address_from_untrusted_peer":      verifkit.Pick(300, 6000),
-		"certain_runs_with_claimed_trusted_address_reaching_limit": verifkit.Pick(50, 1000),
-		"block_enforced_on_attempt_claiming_trusted_address":       verifkit.Pick(50, 1000),
+		"block_enforced_checks":                                     verifkit.Pick(100, 2000),
+		"block_enforced_on_right_password":                          verifkit.Pick(20, 400),
+		"certain_runs_reaching_limit":                               verifkit.Pick(100, 2000),
+		"success_clearing_a_count":                                  verifkit.Pick(50, 1000),
+		"session_must_accept_checks":                                verifkit.Pick(200, 4000),
+		"session_must_accept_checks_after_restart":                  verifkit.Pick(20, 400),
+		"session_reject_checks_after_expiry":                        verifkit.Pick(50, 1000),
+		"session_reject_checks_after_logout":                        verifkit.Pick(50, 1000),
+		"session_reject_checks_after_logout_and_restart":            verifkit.Pick(5, 100),
+		"unknown_token_checks":                                      verifkit.Pick(100, 2000),
+		"restarts":                                                  verifkit.Pick(100, 2000),
+		"session_reject_checks_after_logout_during_storage_fault":   verifkit.Pick(50, 1000),
+		"block_enforced_after_right_basic_credentials_inside_block": verifkit.Pick(30, 600),
+		"logouts_with_several_session_cookies":                      verifkit.Pick(20, 400),
+		"session_reject_checks_after_logout_with_several_cookies":   verifkit.Pick(10, 200),
+		"logout_requests_with_several_session_cookies":              verifkit.Pick(50, 1000),
+		"block_enforced_checks_on_new_address_with_512+_tracked":    verifkit.Pick(10, 50),
+		"logins_claiming_trusted_address_from_untrusted_peer":       verifkit.Pick(300, 6000),
+		"certain_runs_with_claimed_trusted_address_reaching_limit":  verifkit.Pick(50, 1000),
+		"block_enforced_on_attempt_claiming_trusted_address":        verifkit.Pick(50, 1000),
 	}
 	if !rep.Violated() {
 		var low []string
